@@ -950,6 +950,21 @@ def make_plan(seed, index, tier, sub):
           'max_steps': 200000 + 4000 * sum(o.get('n', 0) for t in threads for o in t['ops'] if o['op'] == 'bulk'),
           'strategy': _gen_strategy(rng, nthreads), 'opcodes': rng.random() < 0.15,
           'probe_xs': sorted(rng.sample(XS, 3)), 'sub': sub}
+  # a user lock ("gate"): some requests are made while holding it, some requested functions take it inside their
+  # own effects (every l.append).  Legitimate as long as the system never runs user code while holding its own lock.
+  grng = random.Random('C10gate:%s:%s:%s:%s' % (seed, index, tier, sub))
+  if nthreads > 1 and grng.random() < 0.4:
+    for tp in threads:
+      for op in tp['ops']:
+        if op['op'] in ('tg', 'cv', 'cc'):
+          r = grng.random()
+          if r < 0.45:
+            op['gate'] = 'use'
+          elif r < 0.65:
+            op['gate'] = 'hold'
+  if droppable and nthreads > 1 and grng.random() < 0.4:
+    tp = threads[grng.randrange(nthreads)]
+    tp['ops'].insert(grng.randrange(len(tp['ops']) + 1), {'op': 'dropop', 'fid': grng.choice(droppable)})
   if sub == 'faulty':
     pts = Z['points']
     nf = rng.choice([1, 1, 2, 3])
@@ -965,6 +980,23 @@ def make_plan(seed, index, tier, sub):
 # ---------------------------------------------------------------------------
 # executing one plan (child-side)
 # ---------------------------------------------------------------------------
+class GateList(list):
+  """The effects list handed to a requested function; every append happens
+  under the user's lock."""
+  __slots__ = ('gate',)
+
+  def __init__(self, gate):
+    list.__init__(self)
+    self.gate = gate
+
+  def _append(self, v):
+    with self.gate:
+      list.append(self, v)
+
+  append = _append     # replaced by malt.do_not_convert(_append) once malt is importable: like list.append,
+                       # the effect sink itself is not something to convert
+
+
 class Run(object):
 
   def __init__(self, lane, plan, schedule, keep_log, rdir=None):
@@ -983,6 +1015,13 @@ class Run(object):
     self.sim.tracer = sched.Tracer(self.sim, opcodes=plan.get('opcodes', False))
     self.inj = faults.Injector() if plan['faults'] else None
     self.inflight = {}       # tid -> op
+    self.gate = None
+    if any(o.get('gate') for tp in plan['threads'] for o in tp['ops']):
+      self.gate = boot.SimLock(True, ('harness-gate', 0))
+      if GateList.append is GateList._append:
+        w = api.do_not_convert(GateList._append)
+        w.__name__ = w.__qualname__ = 'append'
+        GateList.append = w
     self.tid_by_ident = {}
     self.events_fired = []
     self.op_meta = {}        # ident -> dict for probes
@@ -1182,6 +1221,27 @@ class Run(object):
     with sched.atomic(sim):
       f = None
 
+  def do_dropop(self, tid, i, op):
+    """The program drops its last reference to a pool function *as an ordinary
+    step of this thread*: whatever the caches do on the death of the function
+    (weak-reference callbacks) runs here, traced and pre-emptible like any
+    other library code - unlike the drop *events*, which are atomic."""
+    sim = self.sim
+    e = self.E[op['fid']]
+    rec = {'t': tid, 'i': i, 'op': op, 'status': 'skipped-dropped', 'faulted': False}
+    self.responses.append(rec)
+    if e.fn is None:
+      return
+    sim.point('op', op['fid'], i)
+    e.fn = None
+    e.self_obj = None
+    rec['status'] = 'dropped'
+    if e.dropper:
+      e.dropper()
+    self.events_fired.append('dropop:%s' % e.name)
+    sim.probe('drop_as_thread_step')
+    sim.note('dropped:%s' % e.name)
+
   def do_op(self, tid, i, op):
     if op['op'] == 'fresh':
       return self.do_fresh(tid, i, op)
@@ -1189,6 +1249,8 @@ class Run(object):
       return self.do_mutate(tid, i, op)
     if op['op'] == 'bulk':
       return self.do_bulk(tid, i, op)
+    if op['op'] == 'dropop':
+      return self.do_dropop(tid, i, op)
     sim = self.sim
     e = self.E[op['fid']]
     f = e.fn
@@ -1210,11 +1272,16 @@ class Run(object):
           fl = faults.Fault(fp['point'], fp['nth'], fp['when'], fp['exc'], ident=faults._thread_key())
           if self.inj.arm(fl):
             armed.append(fl)
+    gate = op.get('gate')
+    held = False
     meta = self.op_meta[ident] = {'blocked': False, 'acquired': False, 'transforms0': COUNT['active']['transforms'],
                                   'others_held': any(l.owner is not None for l in self.cache_locks)}
     self.inflight[tid] = op
     sim.point('op', op['fid'], i)
     try:
+      if gate == 'hold':
+        self.gate.acquire()
+        held = True
       if op['op'] == 'tg':
         try:
           g = self.malt.to_graph(f, recursive=op['rec'],
@@ -1227,7 +1294,7 @@ class Run(object):
           rec['exc'] = type(ex).__name__
           rec['msg'] = str(ex)[:200]
         if rec['status'] == 'fn' and op.get('call') is not None:
-          l = []
+          l = GateList(self.gate) if gate == 'use' else []
           with common.optrace() as tr:
             if self_obj is None:
               o = common.outcome(g, op['call'], l)
@@ -1236,12 +1303,14 @@ class Run(object):
           rec['call'] = ((o[0], common.jsonable(o[1]), common.jsonable(l)), _norm_trace(tr))
       else:
         thunk = _call_thunk(self.malt, self.api, self.converter, f, op)
-        l = []
+        l = GateList(self.gate) if gate == 'use' else []
         with common.optrace() as tr:
           o = common.outcome(thunk, op['x'], l)
         rec['status'] = 'called'
         rec['call'] = ((o[0], common.jsonable(o[1]), common.jsonable(l)), _norm_trace(tr))
     finally:
+      if held:
+        self.gate.release()
       self.inflight[tid] = None
       for fl in armed:
         fl.active = False
@@ -1327,7 +1396,7 @@ class Run(object):
     E = self.E
     for rec in self.responses:
       op = rec['op']
-      if op['op'] in ('fresh', 'mutate', 'bulk'):
+      if op['op'] in ('fresh', 'mutate', 'bulk', 'dropop'):
         continue      # compared at once, inside the run
       e = E[op['fid']]
       if rec['status'] in (None, 'skipped-dropped', 'skipped-mutated'):
@@ -1600,6 +1669,12 @@ def shrink_candidates(plan):
         p = copy.deepcopy(plan)
         p['threads'][i]['ops'][j]['call'] = None
         out.append(('no-call-%d-%d' % (i, j), p, {}))
+  if any(o.get('gate') for t in plan['threads'] for o in t['ops']):
+    p = copy.deepcopy(plan)
+    for t in p['threads']:
+      for o in t['ops']:
+        o.pop('gate', None)
+    out.append(('no-gate', p, {}))
   if plan.get('opcodes'):
     p = copy.deepcopy(plan)
     p['opcodes'] = False
